@@ -51,6 +51,7 @@ M = {
  "exactly collinear series is infinite": ("C10", "CouplingAnalysis.mutual_information(estimator='gauss') of exactly collinear columns: r marginally above 1 by rounding gave NaN instead of +inf (also breaking lag_mode='max')"),
  "closeness of directed networks uses": ("C03", "closeness() on directed networks called igraph with its default mode (directions ignored): directed 3-cycle gave [1,1,1] instead of 2/3 and disagreed with closeness(link_attribute) at unit lengths"),
  "rank tied values by their average rank": ("C10", "SpearmanClimateNetwork ranked with a double argsort (ties broken by position): rho 0.857 instead of 0.8 on data with tied samples"),
+ "rejects lag ranges its 8 bit lag matrix": ("C10 C20", "CouplingAnalysis.cross_correlation(tau_max=140, lag_mode='max'): true lag 130 reported as -126 (lag matrix is int8; finding #18)"),
  "vanishing Fourier amplitudes": ("C15", "refined_AAFT_surrogates returned NaN rows when a Fourier coefficient of the iterate was exactly zero (e.g. [1,-1,2,-2,3,-3,0,0])"),
 }
 fixed = []
@@ -71,7 +72,6 @@ known = [
  {"property": "C05", "match": r"^bounded:adjacency_setter/known29-N-change-node-weights$", "what": "adjacency.setter can change N while node_weights keep their old length (finding #29)"},
  {"property": "C07", "match": r"^bounded:RecurrenceNetwork/missing/(rqa-size-consistent-with-R|setter/adjacency-is-R-without-diagonal)$", "what": "RecurrenceNetwork(missing_values=True) with a NaN state: self.N becomes the order of the reduced network while R keeps its full order (recurrence_rate() 0.625 instead of 0.4; first set_* call uses the wrong diagonal stride)"},
  {"property": "C09", "match": r"^bounded:consistency/undirected-adjacency-symmetric$", "what": "HavlinClimateNetwork(SmallTestData, max_delay=3): similarity is asymmetric (S[0,1]=4.94, S[1,0]=4.16) but the network is declared undirected"},
- {"property": "C10", "match": r"^bounded:cross_correlation/lag-int8-range$", "what": "lag stored as int8 wraps for tau_max > 127: true lag 130 reported as -126 (finding #18)"},
  {"property": "C10", "match": r"^bounded:mutual_information/binning-lagged-norm$", "what": "binned MI with tau_max > 0 normalises entropies by T instead of T - tau_max (factor 0.9 for T=60, tau_max=6); the suite pins the current values (test_mutual_information_binning), so it cannot be repaired without editing a test"},
  {"property": "C01", "match": r"^bounded:InterSystemRecurrenceNetwork\.set_fixed_(threshold|recurrence_rate)/fresh-twin$", "what": "InterSystemRecurrenceNetwork.set_fixed_threshold/_recurrence_rate called after construction replace rp_x/rp_y/crp_xy but not the adjacency: lengths 7 and 6, thresholds (1,1,1) then set_fixed_threshold((1.6,1.4,1.8)) gives n_links 56 vs 74 fresh"},
  {"property": "C01", "match": r"^bounded:HilbertClimateNetwork\.set_(threshold|link_density|non_local)/directed-fresh-twin$", "what": "HilbertClimateNetwork(directed=True): the inherited regenerating setters drop the phase-direction mask (22 links vs 11 fresh)"},
